@@ -260,6 +260,15 @@ Proof.
   rewrite Hc. apply (inv_ud _ HI r (Hi r Hr) Hst n0 Hn0).
 Qed.
 
+Lemma NPost_oe k creator cdet s s1 :
+  Inv hh s -> NPost k creator cdet s s1 -> OEl (nodes s1) (files s) (deps s1).
+Proof.
+  intros HI HP d sl f Hd Hs Hk n1 c Hn1 Hc. rewrite (np_deps _ _ _ _ _ HP) in Hd.
+  apply filter_In in Hd. destruct Hd as [Hd Hne]. apply negb_true_iff in Hne. apply key_eqb_neq in Hne.
+  rewrite Hk in Hne. destruct (np_cre _ _ _ _ _ HP _ _ Hne Hn1) as [n0 [Hn0 [Hc0|Hc0]]]; [congruence|].
+  apply (inv_oe _ HI d sl f Hd Hs Hk n0 c Hn0). congruence.
+Qed.
+
 Lemma NPost_NF k creator cdet s s1 : NPost k creator cdet s s1 -> NF [k] s s1.
 Proof.
   intros HP. split.
@@ -302,6 +311,7 @@ Proof.
   - rewrite (np_files _ _ _ _ _ HP). apply (inv_fh _ HI).
   - intros r Hr. apply in_app_or in Hr. destruct Hr as [Hr|[<-|[]]]; [|destruct hh; reflexivity].
     apply filter_In in Hr. destruct Hr as [Hr _]. rewrite (np_steps _ _ _ _ _ HP) in Hr. apply (inv_sw _ HI). exact Hr.
+  - rewrite (np_files _ _ _ _ _ HP). apply (NPost_oe _ _ _ _ _ HI HP).
 Qed.
 
 (* ------------------------------------------------------------------------------------------ *)
@@ -311,7 +321,9 @@ Lemma file_row_spec strict l creator cdet f s s1 :
   Inv hh s -> NPost (KFile, l) creator cdet s s1 ->
   (f = FUndeclared -> creator = None /\ cdet = true) ->
   (strict = true -> needs_hash f = false) ->
-  wpg strict (file_initialize_row l f s1) (fun s' => Inv hh s' /\ nodes s' = nodes s1).
+  wpg strict (file_initialize_row l f s1)
+      (fun s' => Inv hh s' /\ nodes s' = nodes s1 /\
+                 exists st, fstate_of l s' = Some st /\ (st = f \/ out_state st = true)).
 Proof.
   intros HI HP Hund Hst. destruct (NPost_deps _ _ _ _ _ HI HP) as [HD HA].
   pose proof (inv_rw _ HI) as [R1 R2 R3 R4 R5 R6 R7].
@@ -343,15 +355,18 @@ Proof.
       - exact HD.
       - exact HA.
       - rewrite (np_files _ _ _ _ _ HP). apply (inv_fh _ HI).
-      - rewrite (np_steps _ _ _ _ _ HP). apply (inv_sw _ HI). }
+      - rewrite (np_steps _ _ _ _ _ HP). apply (inv_sw _ HI).
+      - rewrite (np_files _ _ _ _ _ HP). apply (NPost_oe _ _ _ _ _ HI HP). }
     apply wpg_bind. unfold set_fstate. eapply wpg_weaken.
-    { apply (@set_fstate_hash_gen hh); [exact HIU | | |].
+    { apply (@set_fstate_hash_gen hh); [exact HIU | | | |].
       - rewrite (np_files _ _ _ _ _ HP). apply (NPost_ud _ _ _ _ _ _ HI HP).
         + intros r Hr. apply filter_In in Hr. tauto.
         + intros r Hr. apply filter_In in Hr. destruct Hr as [_ Hr]. apply negb_true_iff in Hr.
           apply str_eqb_neq in Hr. congruence.
       - intros Hsu n Hn. rewrite (np_k _ _ _ _ _ HP) in Hn. inversion Hn; subst n. cbn.
         apply Hund. destruct Hstate as [Hs|[Hs [Hs'|Hs']]]; congruence.
+      - intros d sl Hd _ Hk. exfalso. rewrite (np_deps _ _ _ _ _ HP) in Hd. apply filter_In in Hd.
+        destruct Hd as [_ Hd]. rewrite Hk, key_eqb_refl in Hd. discriminate.
       - intros Hs Hnh r Hr. rewrite Hff in Hr. inversion Hr; subst r.
         destruct Hstate as [Hs1|[Hs1 Hs2]]; [rewrite Hs1, (Hst Hs) in Hnh; discriminate|].
         pose proof (inv_fh _ HI r0 Hr0in) as Hok. unfold fh_ok_b in Hok. rewrite <- Hs1 in Hok.
@@ -359,11 +374,15 @@ Proof.
     intros s2 [HI2 [HSO2 [_ [_ [_ [Hnew2 _]]]]]].
     assert (Hne : find_file l s1 <> None). { rewrite Hff. discriminate. }
     specialize (HI2 Hne). specialize (Hnew2 Hne).
-    assert (Hdone : wpg strict (Ok s2) (fun s' => Inv hh s' /\ nodes s' = nodes s1)).
-    { cbn. split; [exact HI2 | apply (so_nodes _ _ HSO2)]. }
-    destruct state; try exact Hdone.
+    assert (Hst2 : state = f \/ out_state state = true).
+    { destruct Hstate as [Hs|[_ [Hs|Hs]]]; [left; exact Hs | right; rewrite Hs; reflexivity | right; rewrite Hs; reflexivity]. }
+    assert (Hdone : wpg strict (Ok s2) (fun s' => Inv hh s' /\ nodes s' = nodes s1 /\
+                       exists st, fstate_of l s' = Some st /\ (st = f \/ out_state st = true))).
+    { cbn. split; [exact HI2|]. split; [apply (so_nodes _ _ HSO2)|]. exists state. auto. }
+    destruct state eqn:Estate; try exact Hdone.
     eapply wpg_weaken; [apply (@mark_file_outdated_spec hh); [exact HI2 | intros _; left; exact Hnew2]|].
-    intros s3 [HI3 [HSO3 _]]. split; [exact HI3|]. rewrite (so_nodes _ _ HSO3). apply (so_nodes _ _ HSO2).
+    intros s3 [HI3 [HSO3 HO3]]. split; [exact HI3|]. split; [rewrite (so_nodes _ _ HSO3); apply (so_nodes _ _ HSO2)|].
+    destruct (HO3 l) as [Ho|[_ Ho]]; [exists FBuilt | exists FOutdated]; (split; [congruence | right; reflexivity]).
   - (* no row: the node is new *)
     assert (HkKL : ~ In (KFile, l) (KL (nodes s))).
     { intros H. apply R3 in H. apply findf_none in Hold. contradiction. }
@@ -398,8 +417,14 @@ Proof.
       - rewrite (np_files _ _ _ _ _ HP). intros r Hr. apply in_app_or in Hr. destruct Hr as [Hr|[<-|[]]].
         + apply (inv_fh _ HI). exact Hr.
         + unfold fh_ok_b. cbn. destruct f; try reflexivity; discriminate.
-      - rewrite (np_steps _ _ _ _ _ HP). apply (inv_sw _ HI). }
-    destruct f; try discriminate; cbn; (split; [exact HI2 | reflexivity]).
+      - rewrite (np_steps _ _ _ _ _ HP). apply (inv_sw _ HI).
+      - rewrite (np_files _ _ _ _ _ HP). intros d sl f0 Hd Hs Hk n1 c Hn1 Hc.
+        destruct (NPost_oe _ _ _ _ _ HI HP d sl f0 Hd Hs Hk n1 c Hn1 Hc) as [H1 [r [H2 H3]]].
+        split; [exact H1|]. exists r. split; [|exact H3]. unfold findf in *. rewrite find_app, H2. reflexivity. }
+    assert (Hfs2 : fstate_of l s2 = Some f).
+    { rewrite fstate_of_findf. unfold s2. cbn [files set_files]. rewrite (np_files _ _ _ _ _ HP).
+      unfold findf in *. rewrite find_app, Hold. cbn. rewrite str_eqb_refl. reflexivity. }
+    destruct f; try discriminate; cbn; (split; [exact HI2 | split; [reflexivity | eexists; split; [exact Hfs2 | left; reflexivity]]]).
 Qed.
 
 (* ------------------------------------------------------------------------------------------ *)
@@ -424,7 +449,9 @@ Lemma create_spec strict k creator arg s :
                     (forall f, arg = InitFile f -> needs_hash f = false)) ->
   wpg strict (create k creator arg s)
       (fun s' => Inv hh s' /\ NF [k] s s' /\ In k (KL (nodes s')) /\
-                 is_detached k s' = cdet_of creator s).
+                 is_detached k s' = cdet_of creator s /\ creator_of k s' = creator /\
+                 (forall f, arg = InitFile f ->
+                    exists st, fstate_of (snd k) s' = Some st /\ (st = f \/ out_state st = true))).
 Proof.
   intros HI Harg Hst. rewrite create_unfold.
   destruct (creator_ok k creator s) as [[]|t|t] eqn:Hco.
@@ -440,22 +467,28 @@ Proof.
   assert (HKin : In k (KL (nodes s1))). { apply (np_kl _ _ _ _ _ HP). right. reflexivity. }
   assert (Hdet1 : is_detached k s1 = cdet_of creator s).
   { rewrite is_detached_findn, (np_k _ _ _ _ _ HP). reflexivity. }
+  assert (Hcre1 : creator_of k s1 = creator).
+  { unfold creator_of, find_node. fold (findn k (nodes s1)). rewrite (np_k _ _ _ _ _ HP). reflexivity. }
   destruct arg as [f|nd|]; cbn in Harg; [| |contradiction].
   - destruct k as [kk l]. destruct Harg as [Hk Hu]. cbn in Hk. subst kk. cbn [snd].
     eapply wpg_weaken.
     { apply (file_row_spec strict l creator (cdet_of creator s) f s s1 HI HP).
       - intros Hf. split; [apply Hu; exact Hf|]. rewrite (Hu Hf). reflexivity.
       - intros Hs. destruct (Hst Hs) as [_ [_ H]]. apply H. reflexivity. }
-    intros s' [HI' Hn']. split; [exact HI'|]. split; [|split].
+    intros s' [HI' [Hn' Hst']]. split; [exact HI'|]. split; [|split; [|split; [|split]]].
     + eapply NF_nodes_eq; [apply (NPost_NF _ _ _ _ _ HP) | exact Hn'].
     + rewrite Hn'. exact HKin.
     + rewrite is_detached_findn, Hn'. exact Hdet1.
+    + unfold creator_of, find_node. rewrite Hn'. exact Hcre1.
+    + intros f0 Hf0. inversion Hf0; subst f0. exact Hst'.
   - destruct k as [kk l]. cbn in Harg. subst kk. cbn [snd]. unfold step_initialize_row. cbn [wpg].
     split; [apply (step_row_inv l creator (cdet_of creator s) nd s s1 HI HP)|].
-    split; [|split].
+    split; [|split; [|split; [|split]]].
     + eapply NF_nodes_eq; [apply (NPost_NF _ _ _ _ _ HP) | reflexivity].
     + exact HKin.
     + exact Hdet1.
+    + exact Hcre1.
+    + intros f0 Hf0. discriminate.
 Qed.
 
 End HH.
